@@ -24,7 +24,7 @@ theorem code_cross (u v w : V3 K) :
 theorem code_perp_dot (u v : V2 K) : t_v2_perp_dot (envL (u.toList ++ v.toList)) = .okS [u.x * v.y - u.y * v.x] := by
   rw [Trace.C03.t_v2_perp_dot, C03.V2.perpDot_eq]
 
-/-- `dot` as computed is symmetric and bilinear, with `magnitude2(v) = dot(v, v)` -- in every dimension -/
+/-- `dot` as computed is symmetric and bilinear, with `magnitude2(v) = dot(v, v)` -- stated for Vector4 (other dimensions: `E2E/C03h.lean` where present; obligations in Trace/C03*.lean) -/
 theorem code_dot (u v w : V4 K) (a : K) :
     ∃ d : V4 K → V4 K → K, (∀ x y, t_v4_dot (envL (x.toList ++ y.toList)) = .okS [d x y]) ∧
       (∀ x, t_v4_magnitude2 (envL x.toList) = .okS [d x x]) ∧
